@@ -51,6 +51,14 @@ class Registries:
                     out.append((val, registry, cache))
         return out
 
+    @staticmethod
+    def _attrs_of(obj):
+        names = list(getattr(obj, '__dict__', {}) or {})
+        for klass in type(obj).__mro__:
+            sl = getattr(klass, '__slots__', ())
+            names.extend([sl] if isinstance(sl, str) else list(sl))
+        return [n for n in names if isinstance(n, str) and not n.startswith('__')]
+
     # ------------------------------------------------------------------ snapshot / restore
     def snap(self):
         self.dispatchers = self._find_dispatchers()
@@ -66,6 +74,20 @@ class Registries:
                     except Exception:     # noqa
                         continue
                     self.base_containers.append((mod, name, val, copy))
+                elif getattr(type(val), '__module__', '').startswith('prettyprinter') and not isinstance(val, type):
+                    # an object of one of the package's own classes bound at module level (e.g. a registry
+                    # object): its container attributes are module state as well
+                    for attr in self._attrs_of(val):
+                        try:
+                            inner = getattr(val, attr)
+                        except Exception:     # noqa
+                            continue
+                        if isinstance(inner, (dict, list, set)) or isinstance(inner, weakref.WeakKeyDictionary):
+                            try:
+                                copy = dict(inner) if isinstance(inner, (dict, weakref.WeakKeyDictionary)) else type(inner)(inner)
+                            except Exception:     # noqa
+                                continue
+                            self.base_containers.append((val, attr, inner, copy))
         # named views used by the explorers' canonical states (None when the package has no such global)
         self.registry = self.dispatchers and self._main_registry() or {}
         self.base_registry = dict(self.registry)
@@ -104,13 +126,29 @@ class Registries:
                     pass
 
     # ------------------------------------------------------------------ accessors that degrade gracefully
+    def _containers(self):
+        for (_owner, _name, obj, _copy) in self.base_containers:
+            yield obj
+
     def deferred(self):
+        """The by-name registry: the dict the package keeps for printers registered by qualified name."""
         d = getattr(self.pp, '_DEFERRED_DISPATCH_BY_NAME', None)
-        return d if isinstance(d, dict) else {}
+        if isinstance(d, dict):
+            return d
+        if not hasattr(self, '_deferred_found'):
+            self._deferred_found = None
+            for obj in self._containers():
+                # recognised by shape on the import-time snapshot: str keys naming 'module.Class', callable values
+                if isinstance(obj, dict) and obj and all(isinstance(k, str) and '.' in k for k in obj) and all(callable(v) for v in obj.values()):
+                    self._deferred_found = obj
+                    break
+        return self._deferred_found if self._deferred_found is not None else {}
 
     def predicates(self):
         p = getattr(self.pp, '_PREDICATE_REGISTRY', None)
-        return p if isinstance(p, list) else []
+        if isinstance(p, list):
+            return p
+        return []
 
     def structseq_cache_names(self):
         c = getattr(self.pp, '_cnamedtuple_fieldnames_by_class', None)
